@@ -1,7 +1,7 @@
 (* C20 -- gallery operators equal the discretisations they document.  Property theorems. *)
 From Coq Require Import ZArith List Bool Ring.
 Import ListNotations.
-Require Import PV.Model.Stencil PV.Model.StencilRun PV.Proofs.StencilBounded PV.Proofs.StencilProofs PV.Proofs.GalleryProofs.
+Require Import PV.Model.Stencil PV.Model.StencilRun PV.Proofs.StencilBounded PV.Proofs.StencilProofs PV.Proofs.StencilEntry PV.Model.Poisson PV.Proofs.PoissonProofs PV.Proofs.GalleryProofs.
 Require Import PV.Base.Ops PV.Proofs.RelaxProofs PV.Model.Diffusion PV.Proofs.DiffusionProofs.
 
 (* stencil_grid = "row of a grid point holds the stencil entries of the neighbours that exist":
@@ -48,6 +48,45 @@ Example C20_stencil_grid_is_spec_example :
 Proof.
   split; [vm_compute; reflexivity|]. split; [repeat constructor|]. split; [reflexivity|]. intros a. apply Z.add_0_r.
 Qed.
+
+(* "the row for a grid point holds the stencil entries of the neighbours that exist", entry by entry: the pair of grid points
+   (p, q) receives exactly ONE stencil entry, the one at stencil position q - p + centre, and nothing when that position lies
+   outside the stencil (any stencil, given as a function of the position; any number of dimensions) *)
+Theorem C20_stencil_entry_is_the_neighbour_entry :
+  forall (V : Type) (vzero : V) (vadd : V -> V -> V) (vnz : V -> bool), (forall a, vadd vzero a = a) ->
+  forall (f : list Z -> V) shape g p q,
+  Forall (fun d => 0 < d)%Z shape -> length p = length shape -> length q = length shape ->
+  let t := vec_add (vec_sub q p) (centre shape) in
+  spec_entry V vzero vadd vnz shape g (map f (Stencil.box shape)) p q
+  = if validb shape t then (if vnz (f t) then f t else vzero) else vzero.
+Proof. exact spec_entry_single. Qed.
+Print Assumptions C20_stencil_entry_is_the_neighbour_entry.
+
+(* pyamg.gallery.poisson as written (Model/Poisson.v: the (3,)*N stencil handed to stencil_grid), on EVERY grid in any number
+   of dimensions: entry (p, q) is 2N (FD) / 3^N - 1 (FE) on the diagonal, -1 for q a face neighbour of p (FD) / any of the
+   3^N - 1 neighbours (FE), 0 otherwise *)
+Theorem C20_poisson_matrix_closed_form : forall fe g, Forall (fun d => 0 < d)%Z g ->
+  poissonZ fe g = map (fun p => map (fun q => if fe then fe_entry (length g) p q else fd_entry (length g) p q) (Stencil.box g)) (Stencil.box g).
+Proof. exact poisson_matrix. Qed.
+Print Assumptions C20_poisson_matrix_closed_form.
+
+(* hence the Poisson matrices are symmetric, with positive diagonal (N >= 1) and off-diagonal entries -1 or 0 *)
+Theorem C20_poisson_symmetric_sign_pattern : forall N p q,
+  (fd_entry N p q = fd_entry N q p /\ fe_entry N p q = fe_entry N q p) /\
+  (fd_entry N p p = 2 * Z.of_nat N /\ fe_entry N p p = 3 ^ Z.of_nat N - 1)%Z /\
+  (length p = length q -> p <> q ->
+   (fd_entry N p q = -1 \/ fd_entry N p q = 0)%Z /\ (fe_entry N p q = -1 \/ fe_entry N p q = 0)%Z).
+Proof.
+  intros N p q. split; [exact (poisson_symmetric N p q)|]. split; [exact (poisson_diagonal N p)|].
+  exact (poisson_offdiagonal N p q).
+Qed.
+Print Assumptions C20_poisson_symmetric_sign_pattern.
+
+Example C20_poisson_example :
+  poissonZ false [2; 3]%Z = [[4; -1; 0; -1; 0; 0]; [-1; 4; -1; 0; -1; 0]; [0; -1; 4; 0; 0; -1];
+                             [-1; 0; 0; 4; -1; 0]; [0; -1; 0; -1; 4; -1]; [0; 0; -1; 0; -1; 4]]%Z /\
+  poissonZ true [2; 2]%Z = [[8; -1; -1; -1]; [-1; 8; -1; -1]; [-1; -1; 8; -1]; [-1; -1; -1; 8]]%Z.
+Proof. split; vm_compute; reflexivity. Qed.
 
 (* the 2-D diffusion stencils sum to zero for every anisotropy and rotation, over any
    commutative ring (FE: identically; FD: given cos^2 + sin^2 = 1) *)
